@@ -69,6 +69,8 @@ class Ctx:
         self._in_quant = 0
         self._n = 0
         self.strs = {}
+        if mode == "q":
+            self.axioms.append(self._card(self.EMPTY) == 0)
         self.axioms += [
             z3.Not(self.intlike(self.NONE)),
             z3.Not(self.is_int(self.NONE)),
@@ -138,6 +140,8 @@ class Ctx:
         A.append(z3.Implies(self.one_shot(t), z3.And(self.iterable(t), self.truthy(t), z3.Not(self.is_str(t)))))
         A.append(z3.Implies(t == self.NONE, z3.Not(self.truthy(t))))
         A.append(self.len_of(t) >= 0)
+        # a sized container has at least as many items as distinct elements
+        A.append(z3.Implies(z3.And(self.iterable(t), z3.Not(self.one_shot(t))), self.card(self.content(t)) <= self.len_of(t)))
         return t
 
     def of_int(self, i):
@@ -250,6 +254,8 @@ class Ctx:
         if kind == "id":
             return self.ids
         if kind == "set":
+            if getattr(self, "set_domain", None) is not None:
+                return self.set_domain
             return self.all_sets()
         raise ValueError(kind)
 
